@@ -9,6 +9,7 @@ import (
 	"fmt"
 	"math/rand"
 	"path/filepath"
+	"strings"
 
 	"github.com/pion/interceptor/pkg/twcc"
 	"github.com/pion/rtcp"
@@ -494,12 +495,44 @@ func main() {
 			Checks: []string{"rec_mismatches", "rec_spec_failures"},
 		}
 	}
+	var fails []cq.ImplFailure
 	sets := []*cq.Set{mk("c05bnd")}
 	for i := 0; i < 8; i++ {
 		sets = append(sets, mk(fmt.Sprintf("c05str%d", i)))
 	}
+	// the concrete-buffer sets (mapstate.go): several sets for parallel shards, one checker
+	mkMap := func(name string) *cq.Set {
+		return &cq.Set{Name: name, Import: "IV.Check.C05MapCheck", CaseType: "c05map_case", Checks: []string{"cmap_mismatches"}}
+	}
+	const nMapSets = 4
+	for i := 0; i < nMapSets; i++ {
+		sets = append(sets, mkMap(fmt.Sprintf("c05map%d", i)))
+	}
+	mapSet0 := len(sets) - nMapSets
+	nmap, nmapCut, maxCap := 0, 0, int64(0)
+	addMap := func(mc *mapCase, set *cq.Set, buckets ...string) {
+		for _, f := range mc.fails {
+			fails = append(fails, cq.ImplFailure{Kind: "marshal-or-panic", Detail: f, Case: mc})
+		}
+		for _, b := range mc.bs {
+			if b == "map:cut-for-cost" {
+				nmapCut++
+			}
+		}
+		for _, ob := range mc.Obs {
+			maxCap = max(maxCap, ob.Cap)
+		}
+		nmap++
+		set.Cases = append(set.Cases, mc.toCase(buckets...))
+	}
+	mapExtra := func() map[string]interface{} {
+		return map[string]interface{}{
+			"map_state_via": mapStateVia, "map_cases": nmap, "map_cases_cut_for_cost": nmapCut,
+			"map_max_capacity_observed": maxCap,
+			"map_observables": "after every Record: len(arrivalTimes), beginSequenceNumber, endSequenceNumber, digest of arrivalTimes[0..cap)",
+		}
+	}
 	cur := 0
-	var fails []cq.ImplFailure
 	add := func(c *c05Case, buckets ...string) {
 		for _, f := range c.fails {
 			fails = append(fails, cq.ImplFailure{Kind: "marshal-or-panic", Detail: f, Case: c})
@@ -518,9 +551,14 @@ func main() {
 	}
 	if o.Replay != "" {
 		var c c05Case
-		cq.LoadReplay(o.Replay, &c)
+		from := cq.LoadReplay(o.Replay, &c)
 		add(run(c.Sender, c.Ops), "replay")
-		cq.Write(o, "replay", nonEmpty(), nil, fails)
+		budget := int64(mapBudgetBig)
+		if strings.HasPrefix(from, "c05map") {
+			budget = 0 // a replay of the map set itself: the whole history
+		}
+		addMap(runMap(c.Sender, c.Ops, budget), sets[mapSet0], "replay")
+		cq.Write(o, "replay", nonEmpty(), mapExtra(), fails)
 
 		return
 	}
@@ -528,14 +566,23 @@ func main() {
 		var c c05Case
 		cq.LoadReplay(f, &c)
 		add(run(c.Sender, c.Ops), "corpus:"+filepath.Base(f))
+		addMap(runMap(c.Sender, c.Ops, mapBudget), sets[mapSet0], "corpus:"+filepath.Base(f))
 	}
 	nb := o.Scale(400, 3000)
 	if o.N > 0 { // -n (search campaigns of bin/check): split the volume, no 8192-record runs
 		nb = o.N / 2
 	}
+	reuseEvery := o.Scale(14, 10)
+	if o.N > 0 { // search campaigns look for specification failures only
+		reuseEvery = 0
+	}
 	for i := 0; i < nb; i++ {
 		ops, bs := genBoundary(r, i)
-		add(run(uint32(r.Intn(1<<16)), ops), bs...) //nolint:gosec
+		sender := uint32(r.Intn(1 << 16)) //nolint:gosec
+		add(run(sender, ops), bs...)
+		if reuseEvery > 0 && i%reuseEvery == 0 {
+			addMap(runMap(sender, ops, mapBudgetReuse), sets[mapSet0+(i/reuseEvery)%nMapSets], bs...)
+		}
 	}
 	ns := o.Scale(440, 4000)
 	if o.N > 0 {
@@ -544,7 +591,11 @@ func main() {
 	for i := 0; i < ns; i++ {
 		cur = 1 + i%8
 		ops, bs := genStructured(r)
-		add(run(uint32(r.Intn(1<<16)), ops), bs...) //nolint:gosec
+		sender := uint32(r.Intn(1 << 16)) //nolint:gosec
+		add(run(sender, ops), bs...)
+		if reuseEvery > 0 && i%reuseEvery == 0 {
+			addMap(runMap(sender, ops, mapBudgetReuse), sets[mapSet0+(i/reuseEvery)%nMapSets], bs...)
+		}
 	}
 	nl := o.Scale(0, 2)
 	if o.N > 0 {
@@ -554,6 +605,29 @@ func main() {
 		ops, bs := genLongRun(r)
 		add(run(4242, ops), bs...)
 	}
-	cq.Write(o, "history of Record/Build operations on twcc.Recorder, distinct by content; non-trivial = at least 2 records and at least one feedback packet produced",
-		nonEmpty(), nil, fails)
+	// concrete buffer against the real arrival map: own generator (own PRNG stream,
+	// so the histories of the other sets do not depend on it)
+	if o.N == 0 {
+		rm := rand.New(rand.NewSource(o.Seed*1000003 + 5)) //nolint:gosec
+		spans := []int64{150, 150, 300, 300, 300, 600, 600, 1200, 1200, 2500, 4200}
+		nm := o.Scale(140, 1200)
+		for i := 0; i < nm; i++ {
+			span := spans[rm.Intn(len(spans))]
+			ops, bs := genMap(rm, span, 8+rm.Intn(40))
+			addMap(runMap(uint32(rm.Intn(1<<16)), ops, mapBudget), sets[mapSet0+i%nMapSets], bs...) //nolint:gosec
+		}
+		// few operations up to a large capacity and back; one set each (one shard each)
+		bigs := []int64{8192, 8192, 16384}
+		if o.Tier == "thorough" {
+			bigs = []int64{8192, 8192, 8192, 16384, 16384, 32768, 32768}
+		}
+		for i, target := range bigs {
+			ops, bs := genMapBig(rm, target)
+			s := mkMap(fmt.Sprintf("c05mapbig%d", i))
+			sets = append(sets, s)
+			addMap(runMap(uint32(rm.Intn(1<<16)), ops, mapBudgetBig), s, bs...) //nolint:gosec
+		}
+	}
+	cq.Write(o, "history of Record/Build operations on twcc.Recorder, distinct by content; non-trivial = at least 2 records and at least one feedback packet produced (map sets: at least 2 records)",
+		nonEmpty(), mapExtra(), fails)
 }
